@@ -368,3 +368,63 @@ theorem stage3_lits (refset fnext : List Nat) (ls : List Line) :
   | cons l ls => simp [stage3, combine_lits, Group.single]
 
 end A2Verif.Model.Minify
+
+namespace A2Verif.Model.Minify
+
+theorem members_absorb (g : Group) (le : Bool) (l : Line) :
+    (g.absorb le l).members = g.members ++ [l.num] := by
+  simp [Group.absorb, Group.members]
+
+/-- nothing is ever appended to a line whose number is in `forbids_combining_next` -/
+theorem combine_fnext (refset fnext : List Nat) (cur : Group) (comb le : Bool) (ls : List Line)
+    (hinv : ∀ n ∈ cur.members.dropLast, n ∉ fnext)
+    (hcomb : comb = true → ∀ n, cur.members.getLast? = some n → n ∉ fnext) :
+    ∀ g ∈ combine refset fnext cur comb le ls, ∀ n ∈ g.members.dropLast, n ∉ fnext := by
+  induction ls generalizing cur comb le with
+  | nil => simpa [combine] using hinv
+  | cons l ls ih =>
+    unfold combine
+    simp only []
+    split
+    · rename_i hc
+      have hcomb' : comb = true := by
+        simp only [Bool.and_eq_true] at hc; exact hc.1
+      apply ih
+      · intro n hn
+        rw [members_absorb, List.dropLast_concat] at hn
+        have hne : cur.members ≠ [] := by simp [Group.members]
+        have hx := List.getLast?_eq_some_getLast hne
+        have hsplit := List.dropLast_concat_getLast hne
+        rw [← hsplit] at hn
+        rcases List.mem_append.mp hn with h | h
+        · exact hinv n h
+        · simp only [List.mem_singleton] at h
+          subst h
+          exact hcomb hcomb' _ hx
+      · intro hc' n hn
+        rw [members_absorb, List.getLast?_concat] at hn
+        simp only [Option.some.injEq] at hn
+        subst hn
+        simpa using hc'
+    · intro g hg
+      rcases List.mem_cons.mp hg with rfl | hg
+      · exact hinv
+      · refine ih (Group.single l) _ _ (by simp [Group.single, Group.members]) ?_ g hg
+        intro hc' n hn
+        simp only [Group.single, Group.members, List.getLast?_singleton, Option.some.injEq] at hn
+        subst hn
+        simpa using hc'
+
+theorem stage3_fnext (refset fnext : List Nat) (ls : List Line) :
+    ∀ g ∈ stage3 refset fnext ls, ∀ n ∈ g.members.dropLast, n ∉ fnext := by
+  cases ls with
+  | nil => simp [stage3]
+  | cons l ls =>
+    unfold stage3
+    refine combine_fnext refset fnext _ _ _ ls (by simp [Group.single, Group.members]) ?_
+    intro hc' n hn
+    simp only [Group.single, Group.members, List.getLast?_singleton, Option.some.injEq] at hn
+    subst hn
+    simpa using hc'
+
+end A2Verif.Model.Minify
